@@ -462,6 +462,242 @@ def derivative_forms(ctx, block):
 
 
 # ----------------------------------------------------------------------------
+# scenario arguments and several derivatives of the same kind
+# ----------------------------------------------------------------------------
+
+def build_world(product, world, dtype, K, call):
+    """A scripted derivative: world = {"under": "brownian"|"heston", "A": spot alphabet, "T", "dt", "sigma",
+    "rows": optional path subset}.  Returns (derivative, features computed by the harness from the buffers)."""
+    T, dt = world["T"], world["dt"]
+    spot = all_paths(world["A"], T, dtype=dtype)
+    if world.get("rows") is not None:
+        spot = spot[world["rows"]]
+    N = spot.size(0)
+    if world.get("under", "brownian") == "heston":
+        stock = market.primary("heston", dtype=dtype, dt=dt)
+        # volatility sigma on even rows, 2*sigma on odd rows (variance = its square, dyadic sigma: exact)
+        row = torch.arange(N)
+        if world.get("rows") is not None:
+            row = torch.tensor(world["rows"])
+        fac = (1 + (row % 2)).to(dtype).unsqueeze(-1).expand(N, T)
+        variance = (fac * world["sigma"]) ** 2
+        market.script_primary(stock, "heston", spot, variance)
+        vol = variance.clamp(min=0.0).sqrt()
+    else:
+        stock = market.primary("brownian", dtype=dtype, sigma=world["sigma"], dt=dt)
+        market.set_buffers(stock, spot=spot)
+        vol = torch.full_like(spot, world["sigma"])
+    kw = {"strike": K}
+    if HAS_PUT[product]:
+        kw["call"] = call
+    deriv = market.derivative(KIND[product], stock, T=T, **kw)
+    lm = (spot / K).log()
+    mlm = lm.cummax(dim=-1).values
+    steps = torch.arange(T).to(spot) * dt
+    ttm = (steps[-1] - steps).unsqueeze(0).expand(N, -1)
+    feats = {"log_moneyness": lm, "max_log_moneyness": mlm, "time_to_maturity": ttm, "volatility": vol}
+    return deriv, feats, spot
+
+
+def arg_names(product):
+    return ["log_moneyness", "max_log_moneyness", "time_to_maturity", "volatility"] if HAS_MAX[product] \
+        else ["log_moneyness", "time_to_maturity", "volatility"]
+
+
+def functional_at(product, f, K, call):
+    return call_functional(product, f["log_moneyness"], f["max_log_moneyness"], f["time_to_maturity"], f["volatility"], K, call)
+
+
+def oracle_cells(ctx, product, f, out, K, call, dtype, site, cls_prefix, msg, mini_for_row, family_name, valid=None):
+    """Compare ``out`` (N, T) with the expectation oracle on every distinct (s, m, t, v) cell of the live
+    columns (t > 0) [and valid mask: running max >= spot]."""
+    eps = torch.finfo(dtype).eps
+    T = out.size(1)
+    L = {k: v.to(torch.float64).tolist() for k, v in f.items()}
+    O = out.to(torch.float64).tolist()
+    memo = {}
+    cells = {}
+    for r in range(out.size(0)):
+        for c in range(T - 1):
+            if valid is not None and not valid[r][c]:
+                continue
+            key = (L["log_moneyness"][r][c], L["max_log_moneyness"][r][c] if HAS_MAX[product] else None,
+                   L["time_to_maturity"][r][c], L["volatility"][r][c])
+            cells.setdefault(key, []).append((r, c))
+    for (s_, m_, t_, v_), where in cells.items():
+        exp = unit_expectation(product, s_, m_, t_, v_, call, memo) * (K if product in ("european", "lookback") else 1)
+        mm = s_ if m_ is None else m_
+        tol = C_TOL * eps * scale_of(product, s_, mm, t_, v_, K)
+        ctx.add("distinct_oracle_cells")
+        for (r, c) in where:
+            g = O[r][c]
+            ctx.tick(1, nontrivial=1)
+            if not ((g == g) and abs(mp.mpf(g) - exp) <= tol):
+                ctx.violation(site, cls_prefix + ("nan_" if g != g else "expectation_") + classify(product, s_, mm, K, call),
+                              msg(r, c), observed=g, expected=float(exp), block=mini_for_row(r), family=family_name)
+                break
+
+
+@family
+def scenario_args(ctx, block):
+    """A module bound to a scripted derivative is called with SOME arguments supplied as scenario tensors of the
+    path's shape (shifted / permuted / scaled versions of the derivative's own features) and the others left
+    None: the result must be the functional form at (supplied arguments, the derivative's own remaining state).
+    block: product, world, strike, call, dtype."""
+    import pfhedge.nn as nn
+    product, K, call = block["product"], block["strike"], block["call"]
+    dtype = DT[block["dtype"]]
+    deriv, own, spot = build_world(product, block["world"], dtype, K, call)
+    N, T = spot.shape
+    names = arg_names(product)
+    site = f"BlackScholes({type(deriv).__name__})"
+    live = slice(0, T - 1)
+    col = torch.arange(T).to(spot).unsqueeze(0)
+    scen = {   # several scenarios per argument, all of the path's shape
+        "log_moneyness": {"shift_down": own["log_moneyness"] - 0.25,
+                          "ramp_down": own["log_moneyness"] - 0.125 * (col + 1),
+                          "other_path": own["log_moneyness"].flip(0)},
+        "max_log_moneyness": {"shift_up": own["max_log_moneyness"] + 0.125},
+        "time_to_maturity": {"halved": own["time_to_maturity"] * 0.5, "plus_dt": own["time_to_maturity"] + block["world"]["dt"]},
+        "volatility": {"scaled": own["volatility"] * 1.5, "per_path": own["volatility"] * (1 + 0.25 * (torch.arange(N).to(spot) % 3)).unsqueeze(-1)},
+    }
+    mods = {"BlackScholes": nn.BlackScholes(deriv), "from_derivative": getattr(nn, MODULE[product]).from_derivative(deriv)}
+    snap = market.snapshot(deriv)
+
+    def mini_for_row(r):
+        mb = dict(block)
+        w = dict(block["world"])
+        base = w.get("rows")
+        if "other_path" in block.get("only", "other_path"):
+            return mb           # the permuted scenario needs the whole path set
+        w["rows"] = [base[r] if base is not None else r]
+        mb["world"] = w
+        return mb
+
+    for label, mod in mods.items():
+        for k in range(1, len(names)):                         # 1 .. n-1 supplied arguments
+            for supplied in itertools.combinations(names, k):
+                variants = itertools.product(*[sorted(scen[a].items()) for a in supplied])
+                for combo in variants:
+                    tag = "+".join(f"{a}:{nm}" for a, (nm, _) in zip(supplied, combo))
+                    if block.get("only") and tag != block["only"]:
+                        continue
+                    feats = dict(own)
+                    kwargs = {}
+                    for a, (nm, ten) in zip(supplied, combo):
+                        feats[a] = ten
+                        kwargs[a] = ten
+                    out = mod.price(**kwargs)
+                    ctx.tick(N * (T - 1), nontrivial=N * (T - 1))
+                    if tuple(out.shape) != (N, T) or out.dtype != dtype:
+                        ctx.violation(site, "scenario_shape_or_dtype", f"{label}.price({tag}) has shape {tuple(out.shape)} dtype {out.dtype}",
+                                      block=dict(block, only=tag), family="scenario_args")
+                        continue
+                    ref = functional_at(product, feats, K, call)
+                    if not _bitwise_equal(out[:, live], ref[:, live]):
+                        i = _first_diff(out[:, live], ref[:, live])
+                        r, c = divmod(i, T - 1)
+                        omitted = [a for a in names if a not in supplied]
+                        ctx.violation(site, "scenario_" + "+".join(supplied) + "_supplied_" + "+".join(omitted) + "_not_from_derivative",
+                                      f"{label}.price({tag}; {omitted} left None) != {SITE[product]} at (supplied, derivative's own {omitted}): "
+                                      f"path {spot[r].tolist()} step {c}, strike {K}",
+                                      observed=float(out[:, live].flatten()[i]), expected=float(ref[:, live].flatten()[i]),
+                                      block=dict(block, only=tag), family="scenario_args")
+                        continue
+                    # expectation oracle for the single-argument scenarios (float64): only cells inside the
+                    # property's domain (running max >= spot, t > 0)
+                    if k == 1 and block["dtype"] == "float64" and block.get("oracle", True) and label == "BlackScholes" \
+                            and combo[0][0] in ("shift_down", "halved", "scaled"):
+                        valid = (feats["max_log_moneyness"] >= feats["log_moneyness"]).tolist()
+                        oracle_cells(ctx, product, feats, out, K, call, dtype, site, "scenario_" + supplied[0] + "_",
+                                     lambda r, c: f"{label}.price({tag}) on path {spot[r].tolist()} step {c} != E[payoff] at (supplied, own state)",
+                                     lambda r: dict(block, only=tag), "scenario_args", valid=valid)
+    if market.snapshot_diff(snap, market.snapshot(deriv)):
+        ctx.violation(site, "price_mutates_buffers", "price(scenario) changed the derivative's buffers", block=block, family="scenario_args")
+    ctx.outcome(("scenario", product, K, call))
+
+
+@family
+def multi_derivative(ctx, block):
+    """Several derivatives with the same (kind, call flag, strike) but different scripted paths / sigma / dt /
+    underlier type live in one process; BlackScholes(d_i) is built for each (in the given order, creation and use
+    interleaved or not) and every module must price ITS derivative when arguments are omitted.
+    block: product, strike, call, dtype, worlds [..], order [indices], interleave (bool)."""
+    import pfhedge.nn as nn
+    product, K, call = block["product"], block["strike"], block["call"]
+    dtype = DT[block["dtype"]]
+    built = [build_world(product, w, dtype, K, call) for w in block["worlds"]]
+    site = f"BlackScholes({type(built[0][0]).__name__})"
+    names = arg_names(product)
+    mods = {}
+
+    def use(i, stage):
+        deriv, own, spot = built[i]
+        mod = mods[i]
+        N, T = spot.shape
+        live = slice(0, T - 1)
+        mb = dict(block)
+        if mod.derivative is not deriv:
+            ctx.tick(1, nontrivial=1)
+            ctx.violation(site, "module_bound_to_another_derivative",
+                          f"BlackScholes(d{i}) [{stage}] is bound to a different derivative object than d{i} "
+                          f"(worlds {block['worlds']}, order {block['order']})", observed="other derivative", expected=f"d{i}",
+                          block=mb, family="multi_derivative")
+        ref = functional_at(product, own, K, call)
+        for what in ("price", "delta"):
+            if what == "delta":
+                unbound = make_module(product, K, call)
+                try:
+                    ref_d = unbound.delta(*[own[a] for a in names])
+                    out = mod.delta()
+                except Exception as e:      # noqa: BLE001 - the comparison is differential; C08/C18 own delta's value
+                    if type(e).__name__ in ("RuntimeError", "ValueError") and "size" in str(e):
+                        ctx.violation(site, "multi_derivative_delta_raises", f"BlackScholes(d{i}).delta() raised {e}",
+                                      observed=repr(e)[:200], expected="delta at its derivative's state", block=mb, family="multi_derivative")
+                        continue
+                    raise
+                r_ = ref_d
+            else:
+                out = mod.price()
+                r_ = ref
+            ctx.tick(N * (T - 1), nontrivial=N * (T - 1))
+            if tuple(out.shape) != tuple(r_.shape):
+                ctx.violation(site, f"multi_derivative_{what}_shape",
+                              f"BlackScholes(d{i}).{what}() [{stage}] has shape {tuple(out.shape)}, its derivative's paths {tuple(r_.shape)}",
+                              observed=list(out.shape), expected=list(r_.shape), block=mb, family="multi_derivative")
+                continue
+            if not _bitwise_equal(out[:, live], r_[:, live]):
+                j = _first_diff(out[:, live], r_[:, live])
+                r, c = divmod(j, T - 1)
+                ctx.violation(site, f"multi_derivative_{what}_not_its_own_state",
+                              f"BlackScholes(d{i}).{what}() [{stage}] != {what} at the state of d{i} (path {spot[r].tolist()} step {c}, "
+                              f"world {block['worlds'][i]}), order {block['order']}",
+                              observed=float(out[:, live].flatten()[j]), expected=float(r_[:, live].flatten()[j]),
+                              block=mb, family="multi_derivative")
+            elif what == "price" and stage.endswith("final") and block["dtype"] == "float64" and block.get("oracle", True):
+                oracle_cells(ctx, product, own, out, K, call, dtype, site, "multi_derivative_",
+                             lambda r, c: f"BlackScholes(d{i}).price() on path {spot[r].tolist()} step {c} != E[payoff] (world {block['worlds'][i]})",
+                             lambda r: mb, "multi_derivative")
+
+    order = block["order"]
+    if block["interleave"]:
+        for n, i in enumerate(order):
+            mods[i] = nn.BlackScholes(built[i][0])
+            use(i, f"right after creation #{n}")
+            for j in order[:n]:
+                use(j, f"after creating #{n}")
+        for i in order:
+            use(i, "final")
+    else:
+        for i in order:
+            mods[i] = nn.BlackScholes(built[i][0])
+        for i in order:
+            use(i, "all created, final")
+    ctx.outcome(("multi", product, K, call, tuple(order), block["interleave"]))
+
+
+
+# ----------------------------------------------------------------------------
 # model level
 # ----------------------------------------------------------------------------
 
